@@ -29,6 +29,11 @@ META = {
                   "list.sort, deque and set semantics; for weights='length' the float edge lengths are order-isomorphic to the "
                   "integer squared lengths given to the model (lattice coordinates). Crashes inside a shard are re-run alone, "
                   "counted in the evidence, and fail the run beyond 2%. "
+                  "Tested only (oracle / correspondence, no theorem): that traverse('DFS') is a pre-order (the oracle "
+                  "checks it; proved are only 'each once, parents first'); Kruskal is proved over the abstract partition, "
+                  "not over the array union-find of unionfind.py (C20 proves that refinement separately; the two are not "
+                  "composed inside Coq); the refusal paths of traverse (not computed / unknown order) and of the weights "
+                  "validation are not modelled. "
                   "Deliberately left free (neither oracle nor checkers constrain it): the exception class and message of a "
                   "refusal (a starting element that is not an element may be refused with anything; a negative index may "
                   "instead be answered with the correct tree of element n+index); which of several breadth-first trees / "
@@ -1321,7 +1326,10 @@ META["level_text"] = (
     "distance, attained and minimal; parent/children mutually inverse; tree edges are admissible adjacencies one level "
     "down; |edges|+1 = |reached|), C10_bfs_acyclic, C10_traverse (both orders: each element exactly once, reported parent, "
     "parents first, fuel not hit), C10_forest (every element in exactly one tree, each tree spans the component of its "
-    "root, roots are the least elements of distinct components), C10_forest_traverse (every element exactly once), "
+    "root, roots are the least elements of distinct components), C10_forest_one_tree_per_component (every element is "
+    "connected to exactly one root; a forest of k trees on n elements has n-k edges; connectivity is an equivalence on "
+    "the symmetric adjacency), C10_forest_traverse (every element exactly once), C10_traverse_bfs_level_by_level / "
+    "C10_traverse_bfs_by_hop_distance (traverse('BFS') never decreases the depth = hop distance), "
     "C10_kruskal_traverse, C10_kruskal (edge list is a spanning forest of the "
     "admissible edges in every component, every edge a bridge; parent/children orient exactly the root's component; "
     "orientation fuel not hit), C10_kruskal_minimal (minimum weight among all spanning forests, ties and negative weights "
